@@ -202,3 +202,102 @@ def expected_frame(lg, lgs):
         if n.startswith(p) and n[len(p):] in nonmodal:
             return p
     raise AnalysisError(f'modal logic {n}: cannot tell its frame from its name')
+
+
+def fold_access_rules(m: Model, deep=False):
+    """The access (frame) rules folded on *concrete* branches: for every relation over three worlds and every node the rule is
+    offered, the targets it yields are exactly the missing instances of its clause --
+        Reflexive:  (w, w) for each world w of the node;    Symmetric:  (w2, w1) for an access node (w1, w2);
+        Transitive: (w1, w3) for every (w2, w3) on the branch.
+    So iterating the rules reaches exactly the closure the frame condition requires.  (The symbolic schemas compare the *shape*
+    of what a rule adds; a rule that adds the right shape only for some nodes -- w1 < w2, say -- shows here.)"""
+    import collections
+    import itertools
+    from .bind import bound_class, make_self
+    from .minieval import Interp, Obj, Raised
+    PROOF = 'pytableaux.proof'
+    HELPERS = 'pytableaux.proof.helpers'
+    consulted, out = set(), []
+    WorldIndex, FilterHelper, MaxWorlds = Obj('WorldIndex'), Obj('FilterHelper'), Obj('MaxWorlds')
+
+    class AccessNodeM(dict):
+        def pair(s_):
+            return WP(s_['world1'], s_['world2'])
+
+        def worlds(s_):
+            return tuple(v for k, v in s_.items() if k in ('world', 'world1', 'world2'))
+
+        def __hash__(s_):
+            return id(s_)
+    g = dict(WorldIndex=WorldIndex, FilterHelper=FilterHelper, MaxWorlds=MaxWorlds, AccessNode=lambda mp: AccessNodeM(mp),
+             Node=Obj('Node', Key=Obj('Key', world1='world1', world2='world2', world='world')),
+             anode=lambda a, b: AccessNodeM(world1=a, world2=b), adds=lambda *groups, **kw: dict(adds=groups, **kw), group=lambda *a: tuple(a),
+             filterfalse=itertools.filterfalse, reversed=lambda x: tuple(reversed(x)), map=map)
+    it = Interp(g, where='proof/rules.py access rules (concrete)', modtree=m.trees[RULES])
+    WPB = bound_class(m, it, ClassRef(PROOF, 'WorldPair'), base=tuple, consulted=consulted, only=('tonode', 'reversed', 'w1', 'w2'))
+
+    class WP(WPB):
+        _fields = ('world1', 'world2')
+
+        def __new__(cls, a, b):
+            return tuple.__new__(cls, (a, b))
+        world1 = property(lambda s_: s_[0])
+        world2 = property(lambda s_: s_[1])
+
+        @classmethod
+        def _make(cls, itr):
+            return cls(*itr)
+    it.g['WorldPair'] = WP
+    IndexC = bound_class(m, it, ClassRef(HELPERS, 'WorldIndex'), base=dict, consulted=consulted, only=('has', 'intransitives'))
+    worlds = (0, 1, 2)
+    allpairs = [(a, b) for a in worlds for b in worlds]
+    maxsize = 9 if deep else 3
+    rels = [frozenset(c) for k in range(maxsize + 1) for c in itertools.combinations(allpairs, k)]
+    for base in ('Reflexive', 'Symmetric', 'Transitive'):
+        rc = ClassRef(RULES, f'access.{base}')
+        fn, _ = m.method(rc, '_get_targets')
+        if fn is None:
+            raise AnalysisError(f'access.{base}._get_targets not found')
+        nbad = 0
+        for rel in rels:
+            br = Obj('branch')
+            bynode = {p: AccessNodeM(world1=p[0], world2=p[1]) for p in rel}
+            br.find = lambda mp, bynode=bynode: bynode.get((mp.get('world1'), mp.get('world2')))
+            idx = IndexC()
+            idx[br] = collections.defaultdict(set)
+            for a, b in rel:
+                idx[br][a].add(b)
+            released = []
+            helpers = {WorldIndex: idx, FilterHelper: Obj('filterhelper', release=lambda n_, b_: released.append(n_)),
+                       MaxWorlds: Obj('maxworlds', is_exceeded=lambda b_: False, is_reached=lambda b_: False)}
+            rule = make_self(m, it, rc, consulted=consulted, extra_ns={'__getitem__': lambda s_, k: s_._helpers[k]}, _helpers=helpers, name=base)
+            nodes = [bynode[p] for p in sorted(rel)]
+            if base == 'Reflexive':
+                nodes = nodes + [AccessNodeM(world=w) for w in worlds if any(w in p for p in rel) or not rel][:3]
+            for node in nodes:
+                try:
+                    targets = it.generate(fn.node, [rule, node, br])
+                    err = None
+                except Raised as e:
+                    targets, err = [], e.text
+                except (TypeError, KeyError, AttributeError, ValueError, IndexError) as e:
+                    targets, err = [], f'{type(e).__name__}: {e}'
+                got = set()
+                for t in targets:
+                    for grp in (t.get('adds', ()) if isinstance(t, dict) else ()):
+                        for nd in grp:
+                            got.add((nd.get('world1'), nd.get('world2')))
+                if base == 'Reflexive':
+                    want = {(w, w) for w in node.worlds()} - rel
+                elif base == 'Symmetric':
+                    w1, w2 = node['world1'], node['world2']
+                    want = {(w2, w1)} - rel
+                else:
+                    w1, w2 = node['world1'], node['world2']
+                    want = {(w1, w3) for (x, w3) in rel if x == w2} - rel
+                ok = err is None and got == want
+                if not ok:
+                    nbad += 1
+                out.append((ok, base, f'access.{base}: relation {sorted(rel)}, node {dict(node)}',
+                            f'the rule offers {sorted(got)}' + (f' (error {err})' if err else '') + f'; the {base.lower()} clause requires exactly {sorted(want)} here'))
+    return out, sorted(consulted)
